@@ -89,13 +89,15 @@ func (b Bundle) Fragment(mtu int) (bs []Bundle, err error) {
 				continue
 			}
 
-			fragBundle.AddExtensionBlock(cb)
+			// The blocks keep their numbers and their order; AddExtensionBlock would number them anew.
+			fragBundle.CanonicalBlocks = append(fragBundle.CanonicalBlocks, cb)
 		}
 
 		fragPayloadBlockLen := mtu - overhead
 
 		offset := int(math.Min(float64(i+fragPayloadBlockLen), float64(len(payloadBlock.Value.(*PayloadBlock).Data()))))
-		fragBundle.AddExtensionBlock(CanonicalBlock{
+		fragBundle.CanonicalBlocks = append(fragBundle.CanonicalBlocks, CanonicalBlock{
+			BlockNumber:       payloadBlock.BlockNumber,
 			BlockControlFlags: payloadBlock.BlockControlFlags,
 			CRCType:           payloadBlock.CRCType,
 			Value:             NewPayloadBlock(payloadBlock.Value.(*PayloadBlock).Data()[i:offset]),
@@ -270,7 +272,8 @@ func ReassembleFragments(bs []Bundle) (b Bundle, err error) {
 			continue
 		}
 
-		b.AddExtensionBlock(cb)
+		// The blocks keep their numbers and their order; AddExtensionBlock would number them anew.
+		b.CanonicalBlocks = append(b.CanonicalBlocks, cb)
 	}
 
 	if payload, payloadErr := mergeFragmentPayload(bs); payloadErr != nil {
@@ -283,10 +286,10 @@ func ReassembleFragments(bs []Bundle) (b Bundle, err error) {
 			return
 		}
 
-		cb := NewCanonicalBlock(1, pb0.BlockControlFlags, NewPayloadBlock(payload))
+		cb := NewCanonicalBlock(pb0.BlockNumber, pb0.BlockControlFlags, NewPayloadBlock(payload))
 		cb.SetCRCType(pb0.CRCType)
 
-		b.AddExtensionBlock(cb)
+		b.CanonicalBlocks = append(b.CanonicalBlocks, cb)
 	}
 
 	err = b.CheckValid()
